@@ -85,6 +85,7 @@ def parseOp (ws : List String) : Option Op :=
   | ["deposit", a, id, amt] => do some (.deposit (← nat? a) (← nat? id) (← nat? amt))
   | ["vote", a, id] => do some (.vote (← nat? a) (← nat? id))
   | ["block", dt] => do some (.block (← nat? dt))
+  | ["setperiods", dp, vp] => do some (.setPeriods (← nat? dp) (← nat? vp))
   | ["migrate", f, t, signer, order] =>
     do let f ← nat? f; let t ← nat? t; let sg ← nat? signer
        if order == "ft" || order == "tf" then some (.migrate f t (sigOkOf f t sg order)) else none
